@@ -8,6 +8,7 @@ initialising lines (first line of every script):
   `new`                         empty BufferX                          → `ok len=0`
   `load <hex>`                  NewReadableBufferX(bytes)              → `ok len=<n>`
   `tload <k> <write-op …>`      first k bytes of what the write emits  → `ok len=<n> full=<total>`
+  `sloadf <eager:0|1> <chunks>` same, but the source fails with an I/O error (`err:io`) after the chunks instead of EOF
   `sload <eager:0|1> <chunks>`  ReaderX over a chunked io.Reader; chunks = `hex,hex,…` (`-` empty chunk, `.` none) → `ok left=<n>`
 writes (buffer):  `wbool 0|1` `wu8 n` `wu16 n` `wi16 n` `wu32 n` `wi32 n` `wu64 n` `wi64 n` `wf64 <16 hex>` `wvu64 n` `wvi64 n`
                   `wvu32 n` `wvi32 n` `wstr <hex>` `wlstr <limit> <hex>` `wraw <hex>`   → `ok len=<n>` | `err:sizeLimit len=<n>`
@@ -171,12 +172,13 @@ def parseRead : List String → Option Ty
 
 def showErr : Err → String
   | .eof => "eof" | .empty => "empty" | .wrongNum => "wrongNum" | .sizeLimit => "sizeLimit"
-  | .unexpectedEOF => "unexpectedEOF" | .overflow => "overflow"
+  | .unexpectedEOF => "unexpectedEOF" | .overflow => "overflow" | .io => "io"
 
 /-- the texts of the package's sentinel errors -/
 def errText : Err → String
   | .empty => "byte.buffer.empty" | .wrongNum => "byte.buffer.wrong.num" | .sizeLimit => "byte.buffer.size.limit"
   | .eof => "EOF" | .unexpectedEOF => "unexpected EOF" | .overflow => "binary: varint overflows a 64-bit integer"
+  | .io => "source failed"
 
 def showVal : Val → String
   | .bool b => if b then "true" else "false"
@@ -240,9 +242,14 @@ def step (st : St) (line : String) : St × String :=
         else (.none, "bad-op")
       | none => (.none, "bad-op")
     | _, _ => (.none, "bad-op")
+  | ["sloadf", e, cs] =>
+    -- like `sload`, but after the chunks the source FAILS with an I/O error of its own instead of io.EOF
+    match (if e == "0" then some false else if e == "1" then some true else none), parseChunks cs with
+    | some e, some cs => let s : Src := ⟨e, cs, true⟩; (.stream s, s!"ok left={s.flat.length}")
+    | _, _ => (.none, "bad-op")
   | ["sload", e, cs] =>
     match (if e == "0" then some false else if e == "1" then some true else none), parseChunks cs with
-    | some e, some cs => let s : Src := ⟨e, cs⟩; (.stream s, s!"ok left={s.flat.length}")
+    | some e, some cs => let s : Src := ⟨e, cs, false⟩; (.stream s, s!"ok left={s.flat.length}")
     | _, _ => (.none, "bad-op")
   | _ =>
     match st with
@@ -271,7 +278,7 @@ def step (st : St) (line : String) : St × String :=
             | _, _, _ => (st, "bad-op")
           | ["tostream", e, spec] =>
             match (if e == "0" then some false else if e == "1" then some true else none), parseChunking spec bs with
-            | some e, some cs => let s : Src := ⟨e, cs⟩; (.stream s, s!"ok left={s.flat.length}")
+            | some e, some cs => let s : Src := ⟨e, cs, false⟩; (.stream s, s!"ok left={s.flat.length}")
             | _, _ => (st, "bad-op")
           | ["rewrite", p, h] =>
             match parseCount p, parseHex h with
@@ -319,6 +326,7 @@ def isInit : List String → Bool
   | ["load", _] => true
   | "tload" :: _ :: _ => true
   | ["sload", _, _] => true
+  | ["sloadf", _, _] => true
   | ["bigrt", _, _, _, _] => true
   | _ => false
 
